@@ -7,27 +7,40 @@ snapshot / restore: `fs.clone()`).
 
 Model
 -----
-* A file is an inode with three byte images: `volatile` (what the running process and every other
-  reader sees = page cache), `synced` (content at the last `fsync(fd)`; empty at creation) and
-  `ordered` (content at the later of the last fsync and the last rename of that inode).
-* A python file object buffers `write()` data privately; `flush()`/`close()`/a full buffer move it to
-  the volatile image in chunks of `chunk` bytes (each chunk is one `pwrite` operation).  Data still
-  in the python buffer when the process dies is gone.
-* `fsync(fd)` copies volatile -> synced (and ordered).  `rename`/`remove`/`chmod`/create act on the
-  volatile namespace and are appended to a journal of not-yet-durable namespace operations.
+* A file is an inode with a `volatile` image (what the running process and every other reader
+  sees = page cache), a `synced` image (content at the last `fsync(fd)`; empty at creation) and an
+  `ordered` image (content at the later of the last fsync and the last rename of that inode), plus
+  the log of data operations (positional writes, truncations) issued since each of those images.
+* An open file is an *open file description* (inode, position, access mode, O_APPEND) reachable
+  through an integer fd.  Two APIs sit on top of it:
+  - python file objects (`open(path, mode)`, `open(fd, mode)`, `os.fdopen(fd, mode)`): `write()`
+    data are buffered privately; `flush()`/`close()`/a full buffer move them to the volatile image
+    in chunks of `chunk` bytes (each chunk is one `pwrite` operation).  Data still in the python
+    buffer when the process dies is gone.
+  - raw descriptors (`os.open/write/read/lseek/ftruncate/close`): every call acts on the volatile
+    image immediately.
+* `fsync(fd)`/`fdatasync(fd)` copies volatile -> synced (and ordered).  `rename`/`replace`/`remove`/
+  `unlink`/`chmod`/create act on the volatile namespace and are appended to a journal of
+  not-yet-durable namespace operations; `fsync` of a directory fd commits that journal.
 * `settle()` = "enough time has passed": everything volatile becomes durable.
 * Every operation is numbered (`opno`), logged, and is a crash point: `arm(k, 'before'|'after')`
   makes operation k raise `SimFSCrash` (a BaseException) before / after its effect.  From then on
   the "process" is dead: no operation has any effect any more (`close()` during the unwinding of a
   `with` block is ignored silently, anything else raises `SimFSCrash` again and is counted in
   `post_mortem`).
+* Whatever the product asks for and SimFS does not model raises `SimFSError`, a BaseException the
+  product cannot swallow; it is also recorded in `Mount.unmodelled`.  It is a *harness* limitation
+  and must never be reported as a property violation.
 
 Post-crash images (`crash_view`)
 --------------------------------
-Every file keeps its durable image plus a chosen prefix of the un-synced appended data (`keep`
-bytes; `None` = all, `-1`/`0` = none).  If the un-synced state is not an append (the file was
-truncated / rewritten) the image is either the durable image (`keep=-1`: nothing persisted) or the
-first `keep` bytes of the new content (truncation persisted).  Two namespace models:
+Every file keeps its durable image plus a prefix, in program order, of the un-synced data
+operations issued since; truncations cost nothing, written bytes are counted against `keep`
+(`None` = everything, `-1` = nothing at all, `k >= 0` = truncations up to and `k` bytes of the
+writes, the last write possibly torn).  For an append-only file this is "durable image + chosen
+prefix of the appended data"; for truncate+rewrite it is the old content (`-1`), an empty file
+(`0`) or a prefix of the new content; for an in-place overwrite it is the durable image with its
+first `keep` bytes replaced.  Two namespace models:
 
 * ``'a'`` (ordered): directory operations are durable immediately and a rename is a barrier for
   the data of the renamed file (durable image = `ordered`) — a journalling file system in ordered
@@ -37,66 +50,146 @@ first `keep` bytes of the new content (truncation persisted).  Two namespace mod
   because nothing fsyncs the directory only the first `ns_keep` journalled namespace operations
   are guaranteed to have reached the disk (`ns_keep=None`: all of them).
 """
+import io
 import os as _os
 import types
 
 S_IFREG = 0o100000
 S_IFDIR = 0o040000
+_ACCMODE = _os.O_RDONLY | _os.O_WRONLY | _os.O_RDWR
 
 
 class SimFSCrash(BaseException):
     """The simulated process dies inside / around a SimFS operation."""
 
 
-class SimFSError(RuntimeError):
-    """Harness-fidelity problem: the product used something SimFS does not model."""
+class SimFSError(BaseException):
+    """Harness-fidelity problem: the product used something SimFS does not model.  A BaseException so
+    that product code (`except Exception`) cannot swallow it; the run must end as a harness error.
+    Every instance is also remembered in `SimFSError.raised` (cleared by the harness per run) in case
+    something swallows it anyway."""
+    raised = []
+
+    def __init__(self, *args):
+        super().__init__(*args)
+        SimFSError.raised.append(' '.join(str(a) for a in args))
+
+
+def _apply_write(buf, pos, data):
+    if pos > len(buf):
+        buf.extend(b'\0' * (pos - len(buf)))
+    buf[pos:pos + len(data)] = data
+
+
+def _apply_truncate(buf, size):
+    if size < len(buf):
+        del buf[size:]
+    else:
+        buf.extend(b'\0' * (size - len(buf)))
+
+
+def replay(base, log, keep):
+    """`base` + the prefix of the un-synced data operations `log` allowed by `keep` (module doc)."""
+    if not log or (keep is not None and keep < 0):
+        return base
+    buf = bytearray(base)
+    budget = keep
+    for kind, a, b in log:
+        if kind == 't':
+            _apply_truncate(buf, a)
+            continue
+        n = len(b) if budget is None else min(budget, len(b))
+        _apply_write(buf, a, b[:n])
+        if budget is not None:
+            budget -= n
+            if n < len(b):
+                break
+    return bytes(buf)
 
 
 class _Inode:
-    __slots__ = ('synced', 'ordered', 'volatile')
+    __slots__ = ('synced', 'ordered', 'volatile', 'log_s', 'log_o')
 
     def __init__(self, data=b''):
-        self.synced = data
-        self.ordered = data
-        self.volatile = data
+        self.synced = self.ordered = self.volatile = data
+        self.log_s = []          # data operations since `synced`
+        self.log_o = []          # data operations since `ordered`
 
     def copy(self):
         n = _Inode()
         n.synced, n.ordered, n.volatile = self.synced, self.ordered, self.volatile
+        n.log_s, n.log_o = list(self.log_s), list(self.log_o)
         return n
 
+    def write_at(self, pos, data):
+        if not data:
+            return
+        vol = self.volatile
+        if pos == len(vol):
+            self.volatile = vol + data
+        else:
+            buf = bytearray(vol)
+            _apply_write(buf, pos, data)
+            self.volatile = bytes(buf)
+        op = ('w', pos, bytes(data))
+        self.log_s.append(op)
+        self.log_o.append(op)
 
-def tear(base, vol, keep):
-    """Post-crash content of a file whose durable image is `base` and volatile image `vol`."""
-    if vol == base:
-        return base
-    if vol.startswith(base):
-        extra = vol[len(base):]
+    def truncate(self, size):
+        if size == len(self.volatile):
+            return
+        buf = bytearray(self.volatile)
+        _apply_truncate(buf, size)
+        self.volatile = bytes(buf)
+        op = ('t', size, None)
+        self.log_s.append(op)
+        self.log_o.append(op)
+
+    def sync(self):
+        self.synced = self.ordered = self.volatile
+        self.log_s, self.log_o = [], []
+
+    def barrier(self):
+        self.ordered = self.volatile
+        self.log_o = []
+
+    def image(self, model, keep):
         if keep is None:
-            return vol
-        return base + extra[:max(0, min(keep, len(extra)))]
-    if keep is None:
-        return vol
-    if keep < 0:
-        return base
-    return vol[:min(keep, len(vol))]
+            return self.volatile
+        return replay(self.ordered, self.log_o, keep) if model == 'a' else replay(self.synced, self.log_s, keep)
+
+    def unsynced(self, model):
+        return sum(len(b) for kind, _, b in (self.log_o if model == 'a' else self.log_s) if kind == 'w')
+
+    def dirty(self, model):
+        return bool(self.log_o if model == 'a' else self.log_s)
+
+
+class _Desc:
+    """Open file description."""
+    __slots__ = ('ino', 'path', 'pos', 'readable', 'writable', 'append', 'closed', 'isdir', 'wrapper')
+
+    def __init__(self, ino, path, readable, writable, append=False, isdir=False):
+        self.ino, self.path, self.pos = ino, path, 0
+        self.readable, self.writable, self.append = readable, writable, append
+        self.closed = False
+        self.isdir = isdir
+        self.wrapper = None
 
 
 class SimFile:
-    """The object returned by the injected `open` (text or binary, read or write/append)."""
+    """Python-level file object (text or binary) over an open file description."""
 
-    def __init__(self, fs, ino, path, mode, fd):
-        self._fs, self._ino, self._path, self._fd = fs, ino, path, fd
+    def __init__(self, fs, desc, fd, mode):
+        self._fs, self._d, self._fd = fs, desc, fd
         self.mode = mode
-        self.name = path
+        self.name = desc.path
         self._binary = 'b' in mode
-        self._writable = any(c in mode for c in 'wax+')
-        self._readable = 'r' in mode or '+' in mode
         self._buf = b''
-        self._pos = 0
         self.closed = False
+        desc.wrapper = self
 
-    # -- context manager -----------------------------------------------------------------------
+    # -- context manager / misc -----------------------------------------------------------------
     def __enter__(self):
         return self
 
@@ -104,54 +197,72 @@ class SimFile:
         self.close()
         return False
 
-    def fileno(self):
+    def _check(self):
         if self.closed:
-            raise ValueError('I/O operation on closed file')
+            raise ValueError('I/O operation on closed file.')
+
+    def fileno(self):
+        self._check()
         return self._fd
 
     def writable(self):
-        return self._writable
+        return self._d.writable
 
     def readable(self):
-        return self._readable
+        return self._d.readable
+
+    def seekable(self):
+        return True
+
+    def isatty(self):
+        return False
 
     # -- writing ---------------------------------------------------------------------------------
     def write(self, data):
         fs = self._fs
-        if self.closed:
-            raise ValueError('I/O operation on closed file.')
-        if not self._writable:
-            raise SimFSError('write on a file opened for reading')
-        raw = data if self._binary else data.encode('utf-8')
-        k = fs._begin('write', self._path, len(raw))
+        self._check()
+        if not self._d.writable:
+            raise io.UnsupportedOperation('not writable')
+        if self._binary:
+            raw = bytes(data)
+        else:
+            if not isinstance(data, str):
+                raise TypeError(f'write() argument must be str, not {type(data).__name__}')
+            raw = data.encode('utf-8')
+        k = fs._begin('write', self._d.path, len(raw))
         self._buf += raw
-        fs.offered.setdefault(self._path, bytearray()).extend(raw)
+        fs.offered.setdefault(self._d.path, bytearray()).extend(raw)
         fs._end(k)
         while len(self._buf) >= fs.bufsize:
             self._spill(fs.bufsize)
         return len(data)
 
+    def writelines(self, lines):
+        for line in lines:
+            self.write(line)
+
     def _spill(self, limit=None):
-        fs = self._fs
+        fs, d = self._fs, self._d
         todo = len(self._buf) if limit is None else min(limit, len(self._buf))
         while todo > 0:
             n = min(fs.chunk, todo)
             piece = self._buf[:n]
-            k = fs._begin('pwrite', self._path, n)
-            node = fs.inodes[self._ino]
-            node.volatile = node.volatile + piece
+            k = fs._begin('pwrite', d.path, n)
+            node = fs.inodes[d.ino]
+            pos = len(node.volatile) if d.append else d.pos
+            node.write_at(pos, piece)
+            d.pos = pos + n
             self._buf = self._buf[n:]
-            fs.written.setdefault(self._path, bytearray()).extend(piece)
+            fs.written.setdefault(d.path, bytearray()).extend(piece)
             fs._end(k)
             todo -= n
 
     def flush(self):
         fs = self._fs
-        if self.closed:
-            raise ValueError('I/O operation on closed file.')
-        k = fs._begin('flush', self._path)
+        self._check()
+        k = fs._begin('flush', self._d.path)
         fs._end(k)
-        if self._writable:
+        if self._d.writable:
             self._spill()
 
     def close(self):
@@ -162,29 +273,46 @@ class SimFile:
             # unwinding of a `with` block after the process died: no effect, no error
             self.closed = True
             return
-        k = fs._begin('close', self._path)
-        if self._writable:
+        k = fs._begin('close', self._d.path)
+        if self._d.writable and not self._d.closed:
             self._spill()
         self.closed = True
+        self._d.closed = True
         fs.fds.pop(self._fd, None)
         fs._end(k)
 
-    # -- reading ---------------------------------------------------------------------------------
+    # -- reading / positioning ---------------------------------------------------------------------
     def read(self, size=-1):
-        fs = self._fs
-        if self.closed:
-            raise ValueError('I/O operation on closed file.')
-        if not self._readable:
-            raise SimFSError('read on a file opened for writing')
-        k = fs._begin('read', self._path)
-        data = fs.inodes[self._ino].volatile
-        if size is None or size < 0:
-            out = data[self._pos:]
-        else:
-            out = data[self._pos:self._pos + size]
-        self._pos += len(out)
+        fs, d = self._fs, self._d
+        self._check()
+        if not d.readable:
+            raise io.UnsupportedOperation('not readable')
+        if self._buf:
+            self._spill()
+        k = fs._begin('read', d.path)
+        data = fs.inodes[d.ino].volatile
+        out = data[d.pos:] if size is None or size < 0 else data[d.pos:d.pos + size]
+        d.pos += len(out)
         fs._end(k)
         return out if self._binary else out.decode('utf-8')
+
+    def seek(self, offset, whence=0):
+        self._check()
+        if self._buf:
+            self._spill()
+        return self._fs.op_lseek(self._fd, offset, whence)
+
+    def tell(self):
+        self._check()
+        return self._d.pos + len(self._buf)
+
+    def truncate(self, size=None):
+        self._check()
+        if self._buf:
+            self._spill()
+        size = self._d.pos if size is None else size
+        self._fs.op_ftruncate(self._fd, size)
+        return size
 
 
 class SimFS:
@@ -200,7 +328,7 @@ class SimFS:
         self.dirs = {'/'}
         self._next_ino = 1
         self._next_fd = 3
-        self.fds = {}               # fd -> SimFile | ('dir', path)
+        self.fds = {}               # fd -> _Desc
         self.opno = 0
         self.log = []               # (opno, name, path, nbytes)
         self.written = {}           # path -> bytearray of everything that reached the volatile image
@@ -211,7 +339,7 @@ class SimFS:
 
     # ---- snapshots ----------------------------------------------------------------------------
     def clone(self):
-        if any(isinstance(f, SimFile) and not f.closed for f in self.fds.values()):
+        if any(not d.closed for d in self.fds.values()):
             raise SimFSError('clone() with open files')
         c = SimFS(self.chunk, self.bufsize, self.pid, self.umask)
         c.inodes = {i: n.copy() for i, n in self.inodes.items()}
@@ -227,7 +355,7 @@ class SimFS:
         live = {v[0] for v in self.names.values()}
         self.inodes = {i: n for i, n in self.inodes.items() if i in live}
         for n in self.inodes.values():
-            n.synced = n.ordered = n.volatile
+            n.sync()
         self.durable_names = {p: list(v) for p, v in self.names.items()}
         self.journal = []
 
@@ -240,6 +368,9 @@ class SimFS:
     def arm(self, k, when):
         assert when in ('before', 'after')
         self.die = (int(k), when)
+
+    def open_files(self):
+        return [d.path for d in self.fds.values() if not d.closed]
 
     # ---- harness-side introspection (not operations, allowed when dead) -------------------------
     def mkdir(self, path):
@@ -259,19 +390,10 @@ class SimFS:
         return len(self.journal)
 
     def unsynced_max(self, model):
-        m = 0
-        for n in self.inodes.values():
-            base = n.ordered if model == 'a' else n.synced
-            if n.volatile != base:
-                m = max(m, len(n.volatile) - len(base) if n.volatile.startswith(base) else len(n.volatile))
-        return m
+        return max([n.unsynced(model) for n in self.inodes.values()] or [0])
 
-    def has_rewrite(self, model):
-        for n in self.inodes.values():
-            base = n.ordered if model == 'a' else n.synced
-            if n.volatile != base and not n.volatile.startswith(base):
-                return True
-        return False
+    def any_dirty(self, model):
+        return any(n.dirty(model) for n in self.inodes.values())
 
     # ---- crash images ---------------------------------------------------------------------------
     def crash_view(self, model='a', ns_keep=None, keep=None):
@@ -296,9 +418,7 @@ class SimFS:
             raise ValueError(model)
         out = {}
         for path, (ino, mode) in ns.items():
-            node = self.inodes[ino]
-            base = node.ordered if model == 'a' else node.synced
-            out[path] = (tear(base, node.volatile, keep), mode)
+            out[path] = (self.inodes[ino].image(model, keep), mode)
         return out
 
     def reboot(self, view):
@@ -335,79 +455,235 @@ class SimFS:
     def _ns(self, kind, a, b=None):
         self.journal.append((kind, a, b))
 
-    # ---- operations ---------------------------------------------------------------------------------
-    def op_getpid(self):
-        k = self._begin('getpid')
-        self._end(k)
-        return self.pid
-
-    def op_open(self, path, mode='r', *args, **kwargs):
+    def _path(self, path):
         path = _os.fspath(path)
         if not isinstance(path, str):
             raise SimFSError('bytes paths are not modelled')
-        if any(c not in 'rwabt+x' for c in mode):
-            raise ValueError(f'invalid mode: {mode!r}')
-        k = self._begin('open', path)
-        ent = self.names.get(path)
-        if path in self.dirs:
+        return path
+
+    def _desc(self, fd):
+        if hasattr(fd, 'fileno'):
+            fd = fd.fileno()
+        d = self.fds.get(fd)
+        if d is None or d.closed:
+            raise OSError(9, 'Bad file descriptor')
+        return d
+
+    def _new_fd(self, desc):
+        fd = self._next_fd
+        self._next_fd += 1
+        self.fds[fd] = desc
+        return fd
+
+    def _lookup_or_create(self, path, create, excl, trunc, perm):
+        """Common part of open(): returns the inode number; journals a creation."""
+        if _os.path.normpath(path) in self.dirs:
             raise IsADirectoryError(21, 'Is a directory', path)
-        creating = any(c in mode for c in 'wax')
+        ent = self.names.get(path)
         if ent is None:
-            if not creating:
+            if not create:
                 raise FileNotFoundError(2, 'No such file or directory', path)
             if (_os.path.dirname(path) or '/') not in self.dirs:
                 raise FileNotFoundError(2, 'No such file or directory', path)
             ino = self._next_ino
             self._next_ino += 1
             self.inodes[ino] = _Inode()
-            fmode = S_IFREG | (0o666 & ~self.umask)
+            fmode = S_IFREG | (perm & ~self.umask & 0o7777)
             self.names[path] = [ino, fmode]
             self._ns('create', path, (ino, fmode))
-        else:
-            if 'x' in mode:
-                raise FileExistsError(17, 'File exists', path)
-            ino = ent[0]
-            if 'w' in mode:
-                self.inodes[ino].volatile = b''
-        fd = self._next_fd
-        self._next_fd += 1
-        f = SimFile(self, ino, path, mode, fd)
-        if 'a' in mode:
-            f._pos = len(self.inodes[ino].volatile)
-        self.fds[fd] = f
+            return ino
+        if create and excl:
+            raise FileExistsError(17, 'File exists', path)
+        if trunc:
+            self.inodes[ent[0]].truncate(0)
+        return ent[0]
+
+    # ---- operations: python-level open -------------------------------------------------------------
+    def op_getpid(self):
+        k = self._begin('getpid')
+        self._end(k)
+        return self.pid
+
+    def op_open(self, path, mode='r', buffering=-1, encoding=None, errors=None, newline=None, closefd=True,
+                opener=None):
+        if opener is not None:
+            raise SimFSError('open(..., opener=) is not modelled')
+        if encoding not in (None, 'utf-8', 'utf8', 'UTF-8', 'ascii'):
+            raise SimFSError(f'open(..., encoding={encoding!r}) is not modelled')
+        if not isinstance(mode, str) or any(c not in 'rwabt+x' for c in mode) or \
+                sum(c in mode for c in 'rwax') != 1:
+            raise ValueError(f'invalid mode: {mode!r}')
+        if isinstance(path, int) and not isinstance(path, bool):
+            return self.op_fdopen(path, mode)
+        path = self._path(path)
+        k = self._begin('open', path)
+        plus = '+' in mode
+        ino = self._lookup_or_create(path, create=any(c in mode for c in 'wax'), excl='x' in mode,
+                                     trunc='w' in mode, perm=0o666)
+        d = _Desc(ino, path, readable='r' in mode or plus, writable=plus or any(c in mode for c in 'wax'),
+                  append='a' in mode)
+        if d.append:
+            d.pos = len(self.inodes[ino].volatile)
+        fd = self._new_fd(d)
+        f = SimFile(self, d, fd, mode)
         self._end(k)
         return f
+
+    def op_fdopen(self, fd, mode='r', *args, **kwargs):
+        if not isinstance(mode, str) or any(c not in 'rwabt+x' for c in mode):
+            raise ValueError(f'invalid mode: {mode!r}')
+        k = self._begin('fdopen', getattr(self.fds.get(fd), 'path', None))
+        d = self._desc(fd)
+        if d.isdir:
+            raise IsADirectoryError(21, 'Is a directory', d.path)
+        if d.wrapper is not None and not d.wrapper.closed:
+            raise SimFSError('two file objects over one descriptor are not modelled')
+        wants_write = '+' in mode or any(c in mode for c in 'wax')
+        wants_read = 'r' in mode or '+' in mode
+        if (wants_write and not d.writable) or (wants_read and not d.readable and not wants_write):
+            raise OSError(22, 'Invalid argument')   # access mode of the descriptor does not allow it
+        if 'a' in mode:
+            d.append = True
+        f = SimFile(self, d, fd, mode)
+        self._end(k)
+        return f
+
+    # ---- operations: raw descriptors ---------------------------------------------------------------
+    def op_os_open(self, path, flags, mode=0o777, dir_fd=None):
+        if dir_fd is not None:
+            raise SimFSError('os.open(..., dir_fd=) is not modelled')
+        path = self._path(path)
+        k = self._begin('os.open', path)
+        acc = flags & _ACCMODE
+        if _os.path.normpath(path) in self.dirs:
+            if acc != _os.O_RDONLY or flags & (_os.O_CREAT | _os.O_TRUNC):
+                raise IsADirectoryError(21, 'Is a directory', path)
+            d = _Desc(0, path, True, False, isdir=True)
+            fd = self._new_fd(d)
+            self._end(k)
+            return fd
+        if flags & getattr(_os, 'O_DIRECTORY', 0):
+            raise NotADirectoryError(20, 'Not a directory', path)
+        writable = acc in (_os.O_WRONLY, _os.O_RDWR)
+        ino = self._lookup_or_create(path, create=bool(flags & _os.O_CREAT), excl=bool(flags & _os.O_EXCL),
+                                     trunc=bool(flags & _os.O_TRUNC) and writable, perm=mode)
+        d = _Desc(ino, path, readable=acc in (_os.O_RDONLY, _os.O_RDWR), writable=writable,
+                  append=bool(flags & _os.O_APPEND))
+        fd = self._new_fd(d)
+        self._end(k)
+        return fd
+
+    def op_os_close(self, fd):
+        if self.dead:
+            return
+        k = self._begin('os.close', getattr(self.fds.get(fd), 'path', None))
+        d = self._desc(fd)
+        d.closed = True
+        if d.wrapper is not None:
+            d.wrapper.closed = True      # like the real thing: buffered data of the wrapper are lost
+        self.fds.pop(fd, None)
+        self._end(k)
+
+    def op_os_write(self, fd, data):
+        d = self.fds.get(fd)
+        k = self._begin('os.write', getattr(d, 'path', None), len(data))
+        d = self._desc(fd)
+        if d.isdir or not d.writable:
+            raise OSError(9, 'Bad file descriptor')
+        data = bytes(data)
+        node = self.inodes[d.ino]
+        pos = len(node.volatile) if d.append else d.pos
+        node.write_at(pos, data)
+        d.pos = pos + len(data)
+        self.offered.setdefault(d.path, bytearray()).extend(data)
+        self.written.setdefault(d.path, bytearray()).extend(data)
+        self._end(k)
+        return len(data)
+
+    def op_os_read(self, fd, n):
+        k = self._begin('os.read', getattr(self.fds.get(fd), 'path', None))
+        d = self._desc(fd)
+        if d.isdir:
+            raise IsADirectoryError(21, 'Is a directory', d.path)
+        if not d.readable:
+            raise OSError(9, 'Bad file descriptor')
+        out = self.inodes[d.ino].volatile[d.pos:d.pos + n]
+        d.pos += len(out)
+        self._end(k)
+        return out
+
+    def op_lseek(self, fd, pos, whence=0):
+        k = self._begin('lseek', getattr(self.fds.get(fd), 'path', None))
+        d = self._desc(fd)
+        size = 0 if d.isdir else len(self.inodes[d.ino].volatile)
+        new = pos if whence == 0 else d.pos + pos if whence == 1 else size + pos if whence == 2 else None
+        if new is None or new < 0:
+            raise OSError(22, 'Invalid argument')
+        d.pos = new
+        self._end(k)
+        return new
+
+    def op_ftruncate(self, fd, length):
+        k = self._begin('ftruncate', getattr(self.fds.get(fd), 'path', None))
+        d = self._desc(fd)
+        if d.isdir or not d.writable or length < 0:
+            raise OSError(22, 'Invalid argument')
+        self.inodes[d.ino].truncate(length)
+        self._end(k)
+
+    def op_truncate(self, path, length):
+        if isinstance(path, int):
+            return self.op_ftruncate(path, length)
+        path = self._path(path)
+        k = self._begin('truncate', path)
+        ent = self.names.get(path)
+        if ent is None:
+            raise FileNotFoundError(2, 'No such file or directory', path)
+        self.inodes[ent[0]].truncate(length)
+        self._end(k)
 
     def op_fsync(self, fd):
         if hasattr(fd, 'fileno'):
             fd = fd.fileno()
-        k = self._begin('fsync', getattr(self.fds.get(fd), '_path', None))
-        f = self.fds.get(fd)
-        if f is None:
-            raise OSError(9, 'Bad file descriptor')
-        if isinstance(f, tuple):            # directory fd: the namespace journal reaches the disk
+        k = self._begin('fsync', getattr(self.fds.get(fd), 'path', None))
+        d = self._desc(fd)
+        if d.isdir:                         # directory fd: the namespace journal reaches the disk
             self.durable_names = {p: list(v) for p, v in self.names.items()}
             self.journal = []
         else:
-            node = self.inodes[f._ino]
-            node.synced = node.ordered = node.volatile
+            self.inodes[d.ino].sync()
         self._end(k)
 
     op_fdatasync = op_fsync
 
+    def op_fstat(self, fd):
+        k = self._begin('fstat', getattr(self.fds.get(fd), 'path', None))
+        d = self._desc(fd)
+        if d.isdir:
+            r = types.SimpleNamespace(st_mode=S_IFDIR | 0o755, st_size=0, st_ino=0)
+        else:
+            mode = next((v[1] for v in self.names.values() if v[0] == d.ino), S_IFREG | 0o600)
+            r = types.SimpleNamespace(st_mode=mode, st_size=len(self.inodes[d.ino].volatile), st_ino=d.ino)
+        self._end(k)
+        return r
+
+    # ---- operations: names ---------------------------------------------------------------------------
     def op_exists(self, path):
+        path = self._path(path)
         k = self._begin('exists', path)
         r = path in self.names or _os.path.normpath(path) in self.dirs
         self._end(k)
         return r
 
     def op_isfile(self, path):
+        path = self._path(path)
         k = self._begin('isfile', path)
         r = path in self.names
         self._end(k)
         return r
 
     def op_isdir(self, path):
+        path = self._path(path)
         k = self._begin('isdir', path)
         r = _os.path.normpath(path) in self.dirs
         self._end(k)
@@ -417,6 +693,9 @@ class SimFS:
         return self.op_stat(path).st_size
 
     def op_stat(self, path):
+        if isinstance(path, int):
+            return self.op_fstat(path)
+        path = self._path(path)
         k = self._begin('stat', path)
         ent = self.names.get(path)
         if ent is None:
@@ -429,6 +708,7 @@ class SimFS:
         return r
 
     def op_rename(self, src, dst):
+        src, dst = self._path(src), self._path(dst)
         k = self._begin('rename', dst)
         ent = self.names.get(src)
         if ent is None:
@@ -437,18 +717,22 @@ class SimFS:
             raise IsADirectoryError(21, 'Is a directory', dst)
         if (_os.path.dirname(dst) or '/') not in self.dirs:
             raise FileNotFoundError(2, 'No such file or directory', dst)
-        del self.names[src]
-        self.names[dst] = ent
-        node = self.inodes[ent[0]]
-        node.ordered = node.volatile
-        self._ns('rename', src, dst)
+        if src != dst:
+            del self.names[src]
+            self.names[dst] = ent
+            self._ns('rename', src, dst)
+        self.inodes[ent[0]].barrier()
         self._end(k)
 
-    op_replace = op_rename
+    def op_replace(self, src, dst):
+        return self.op_rename(src, dst)
 
     def op_remove(self, path):
+        path = self._path(path)
         k = self._begin('remove', path)
         if path not in self.names:
+            if _os.path.normpath(path) in self.dirs:
+                raise IsADirectoryError(21, 'Is a directory', path)
             raise FileNotFoundError(2, 'No such file or directory', path)
         del self.names[path]
         self._ns('remove', path)
@@ -457,6 +741,10 @@ class SimFS:
     op_unlink = op_remove
 
     def op_chmod(self, path, mode):
+        if isinstance(path, int):
+            d = self._desc(path)
+            path = d.path
+        path = self._path(path)
         k = self._begin('chmod', path)
         ent = self.names.get(path)
         if ent is None:
@@ -466,6 +754,7 @@ class SimFS:
         self._end(k)
 
     def op_makedirs(self, path, mode=0o777, exist_ok=False):
+        path = self._path(path)
         k = self._begin('makedirs', path)
         if _os.path.normpath(path) in self.dirs and not exist_ok:
             raise FileExistsError(17, 'File exists', path)
@@ -473,31 +762,14 @@ class SimFS:
         self._end(k)
 
     def op_listdir(self, path='.'):
+        path = _os.path.normpath(self._path(path))
         k = self._begin('listdir', path)
-        path = _os.path.normpath(path)
+        if path not in self.dirs:
+            raise FileNotFoundError(2, 'No such file or directory', path)
         out = sorted({_os.path.basename(p) for p in self.names if (_os.path.dirname(p) or '/') == path} |
                      {_os.path.basename(d) for d in self.dirs if d != path and (_os.path.dirname(d) or '/') == path})
         self._end(k)
         return out
-
-    def op_os_open(self, path, flags, mode=0o777, **kwargs):
-        k = self._begin('os.open', path)
-        if _os.path.normpath(path) not in self.dirs:
-            raise SimFSError('os.open is modelled for directories only (directory fsync)')
-        fd = self._next_fd
-        self._next_fd += 1
-        self.fds[fd] = ('dir', path)
-        self._end(k)
-        return fd
-
-    def op_os_close(self, fd):
-        if self.dead:
-            return
-        k = self._begin('os.close')
-        f = self.fds.pop(fd, None)
-        if isinstance(f, SimFile):
-            f.close()
-        self._end(k)
 
 
 # ---------------------------------------------------------------------------------------------------
@@ -507,9 +779,10 @@ class SimFS:
 _PURE_OS = {'sep', 'altsep', 'linesep', 'pathsep', 'curdir', 'pardir', 'extsep', 'devnull', 'name', 'fspath',
             'fsencode', 'fsdecode', 'urandom', 'environ', 'getenv', 'error', 'strerror', 'cpu_count',
             'O_RDONLY', 'O_WRONLY', 'O_RDWR', 'O_CREAT', 'O_EXCL', 'O_TRUNC', 'O_APPEND', 'O_DIRECTORY',
-            'PathLike', 'getcwd', 'getuid'}
+            'O_CLOEXEC', 'O_NOFOLLOW', 'O_SYNC', 'O_DSYNC', 'O_BINARY', 'SEEK_SET', 'SEEK_CUR', 'SEEK_END',
+            'PathLike', 'getuid', 'geteuid', 'getgid', 'umask'}
 _PURE_PATH = {'basename', 'dirname', 'join', 'split', 'splitext', 'normpath', 'isabs', 'expanduser', 'sep',
-              'commonprefix', 'commonpath', 'relpath', 'abspath', 'normcase', 'splitdrive', 'expandvars'}
+              'commonprefix', 'commonpath', 'normcase', 'splitdrive', 'expandvars'}
 
 
 class _PathProxy:
@@ -527,13 +800,23 @@ class _PathProxy:
     def isdir(self, path):
         return self._m.fs.op_isdir(path)
 
+    def islink(self, path):
+        return False
+
     def getsize(self, path):
         return self._m.fs.op_getsize(path)
+
+    def abspath(self, path):
+        if not _os.path.isabs(path):
+            self._m.refuse('os.path.abspath of a relative path')
+        return _os.path.normpath(path)
+
+    realpath = abspath
 
     def __getattr__(self, name):
         if name in _PURE_PATH:
             return getattr(_os.path, name)
-        raise SimFSError(f'os.path.{name} is not modelled by SimFS')
+        self._m.refuse(f'os.path.{name}')
 
 
 class _OSProxy:
@@ -555,6 +838,9 @@ class _OSProxy:
 
     lstat = stat
 
+    def fstat(self, fd):
+        return self._m.fs.op_fstat(fd)
+
     def rename(self, src, dst, **kw):
         return self._m.fs.op_rename(src, dst)
 
@@ -569,6 +855,8 @@ class _OSProxy:
     def chmod(self, path, mode, **kw):
         return self._m.fs.op_chmod(path, mode)
 
+    fchmod = chmod
+
     def makedirs(self, path, mode=0o777, exist_ok=False):
         return self._m.fs.op_makedirs(path, mode, exist_ok)
 
@@ -578,16 +866,34 @@ class _OSProxy:
     def listdir(self, path='.'):
         return self._m.fs.op_listdir(path)
 
-    def open(self, path, flags, mode=0o777, **kw):
-        return self._m.fs.op_os_open(path, flags, mode)
+    def open(self, path, flags, mode=0o777, *, dir_fd=None):
+        return self._m.fs.op_os_open(path, flags, mode, dir_fd)
 
     def close(self, fd):
         return self._m.fs.op_os_close(fd)
 
+    def fdopen(self, fd, mode='r', *args, **kwargs):
+        return self._m.fs.op_fdopen(fd, mode, *args, **kwargs)
+
+    def write(self, fd, data):
+        return self._m.fs.op_os_write(fd, data)
+
+    def read(self, fd, n):
+        return self._m.fs.op_os_read(fd, n)
+
+    def lseek(self, fd, pos, whence=0):
+        return self._m.fs.op_lseek(fd, pos, whence)
+
+    def ftruncate(self, fd, length):
+        return self._m.fs.op_ftruncate(fd, length)
+
+    def truncate(self, path, length):
+        return self._m.fs.op_truncate(path, length)
+
     def __getattr__(self, name):
-        if name in _PURE_OS:
+        if name in _PURE_OS and hasattr(_os, name):
             return getattr(_os, name)
-        raise SimFSError(f'os.{name} is not modelled by SimFS')
+        self._m.refuse(f'os.{name}')
 
 
 _MISSING = object()
@@ -599,11 +905,20 @@ class Mount:
     def __init__(self, fs):
         self.fs = fs
         self.os = _OSProxy(self)
+        self.unmodelled = []        # everything SimFS refused: the run is a harness error, not a finding
         self._module = None
         self._saved = None
 
+    def refuse(self, what):
+        self.unmodelled.append(what)
+        raise SimFSError(f'{what} is not modelled by SimFS')
+
     def open(self, path, mode='r', *args, **kwargs):
-        return self.fs.op_open(path, mode, *args, **kwargs)
+        try:
+            return self.fs.op_open(path, mode, *args, **kwargs)
+        except SimFSError as e:
+            self.unmodelled.append(str(e))
+            raise
 
     def install(self, module):
         assert self._module is None
